@@ -18,6 +18,8 @@ type UsageLog = Arc<Mutex<Vec<(u32, u32, String)>>>;
 struct RecUsage {
     id: u32,
     log: UsageLog,
+    /// a usage that claims every request it is offered (as the invite usage does), instead of only looking at it
+    take: bool,
 }
 
 #[async_trait::async_trait]
@@ -34,6 +36,9 @@ impl Usage for RecUsage {
         self.log
             .lock()
             .push((self.id, request.base_headers.cseq.cseq, branch));
+        if self.take {
+            drop(request.take());
+        }
     }
 }
 
@@ -59,7 +64,8 @@ pub fn run(cases: &[Vec<String>]) {
         let events = case[3].clone();
         let seed = id.bytes().fold(0u64, |a, b| a.wrapping_mul(131).wrapping_add(b as u64));
         take_panics();
-        let res = run_async_case(seed, move || run_case(setup, events));
+        let take = case.get(4).map(|s| s == "take").unwrap_or(false);
+        let res = run_async_case(seed, move || run_case(setup, events, take));
         let panics = take_panics();
         match res {
             Ok(s) if panics.is_empty() => println!("{}\t{}", id, s),
@@ -69,7 +75,7 @@ pub fn run(cases: &[Vec<String>]) {
     }
 }
 
-async fn run_case(setup: String, events: String) -> String {
+async fn run_case(setup: String, events: String, take: bool) -> String {
     let clock = Clock::new();
     let wire: WireLog = Default::default();
     let tp = TpHandle::new(MockTp::udp(wire.clone(), clock.0));
@@ -166,6 +172,7 @@ async fn run_case(setup: String, events: String) -> String {
             gs.push(Some(dialog.register_usage(RecUsage {
                 id: (i * 10 + u) as u32,
                 log: ulog.clone(),
+                take,
             })));
         }
         guards.push(gs);
